@@ -9,10 +9,10 @@ import (
 
 func init() {
 	register(&property{
-		ID: "C03",
+		ID:          "C03",
 		Explanation: "Static decision of the proxy's relay structure by path evaluation (goroutine bodies evaluated in place): (R1) proxy() chains one TeeReader per upstream starting from the downstream connection, starts one copy-back goroutine per upstream (upstream -> downstream) and one pump that drains the last link of the chain, all over the same, complete upConns slice; (R2) after the pump's copy ends every upstream gets CloseWrite (or Close where it has no half-close), and after the upstream copies end the downstream's write side is closed when it supports it; (R3) join: wg.Add before each go, deferred wg.Done, wg.Wait and the receive of the pump's completion signal precede the return, and the pump's signal cannot block before it has half-closed the upstreams (buffered channel or signal sent afterwards); (R4) cleanup: Handle defers closing every dialed connection before proxying (C11.R2 evaluation), and dialPeers - evaluated over every outcome of dial and PROXY-header write for 2 peers and versions none/v1/v2 - returns either all dialed connections in order, or an error with every connection it dialed closed.",
-		NotDecided: "Byte-exactness for all payloads/chunkings/timings (io.Copy and io.TeeReader are trusted); half-close through connection wrappers that hide CloseWrite (throttle, proxy_protocol's Conn - noted in DESIGN.md); goroutine/fd counts over time.",
-		Run:        runC03,
+		NotDecided:  "Byte-exactness for all payloads/chunkings/timings (io.Copy and io.TeeReader are trusted); half-close through connection wrappers that hide CloseWrite (throttle, proxy_protocol's Conn - noted in DESIGN.md); goroutine/fd counts over time.",
+		Run:         runC03,
 	})
 }
 
